@@ -224,11 +224,19 @@ def _helper_bindings(fn_node, methods):
             if not (isinstance(block, list) and block and isinstance(block[0], ast.stmt)):
                 continue
             for i, s in enumerate(block):
-                if not (isinstance(s, ast.Assign) and len(s.targets) == 1 and isinstance(s.targets[0], ast.Tuple)
-                        and isinstance(s.value, ast.Call) and isinstance(s.value.func, ast.Attribute) and isinstance(s.value.func.value, ast.Name)
-                        and s.value.func.value.id == "self" and not s.value.args and s.value.func.attr in methods):
+                if not (isinstance(s, ast.Assign) and len(s.targets) == 1 and isinstance(s.targets[0], ast.Tuple)):
                     continue
-                h = methods[s.value.func.attr]
+                call = s.value
+                if isinstance(call, ast.Name):
+                    # shared = self._helper()  (possibly as the fill of an optional parameter: `if shared is None: shared = ...`),
+                    # then  a, b, c, n = shared
+                    fills = [x.value for x in ast.walk(fn_node) if isinstance(x, ast.Assign) and len(x.targets) == 1 and isinstance(x.targets[0], ast.Name)
+                             and x.targets[0].id == call.id and isinstance(x.value, ast.Call)]
+                    call = fills[0] if len(fills) == 1 else None
+                if not (isinstance(call, ast.Call) and isinstance(call.func, ast.Attribute) and isinstance(call.func.value, ast.Name)
+                        and call.func.value.id == "self" and not call.args and call.func.attr in methods):
+                    continue
+                h = methods[call.func.attr]
                 for (j, names, hblock) in _find_corner_bindings(h):
                     env = {nm: _corner(k) for k, nm in enumerate(names)}
                     ev = _Ev(env)
